@@ -10,9 +10,11 @@ DIGITS = list('0123456789')
 UNI_PUNCT = ['«', '»', '—', '“', '”', '…']
 UNI_SPACE = [' ', ' ', '　']
 ASTRAL = ['\U0001F600']
+# NUL, other C0 controls that are not line separators, DEL, BOM, zero-width space, a combining mark, a right-to-left mark
+CONTROL = ['\x00', '\x01', '\x1f', '\x7f', '\ufeff', '\u200b', '\u0301', '\u200f']
 
 _G1 = ([(6, c) for c in SIGNIFICANT] + [(5, c) for c in LETTERS] + [(2, c) for c in DIGITS]
-       + [(40, ' '), (25, '\n'), (4, '\t')] + [(1, c) for c in UNI_PUNCT + UNI_SPACE + ASTRAL])
+       + [(40, ' '), (25, '\n'), (4, '\t')] + [(1, c) for c in UNI_PUNCT + UNI_SPACE + ASTRAL + CONTROL])
 _G1_FLAT = []
 for _w, _c in _G1:
     _G1_FLAT.extend([_c] * _w)
@@ -39,6 +41,26 @@ INLINE = ['*', '**', '***', '_', '__', '`', '``', '` `', '[', ']', '](', ')', ']
           '[[a|', '{{a', '<a@', '<http:', '\\']
 
 
+_REF_VALUES = [0, 9, 10, 13, 32, 35, 38, 60, 127, 128, 150, 159, 160, 0xD7FF, 0xD800, 0xDFFF, 0xE000, 0xFFFD, 0xFFFE, 0xFFFF, 0x10000,
+               0x10FFFF, 0x110000, 0xFFFFFF, 9999999, 99999999]
+
+
+def numeric_ref(t):
+    """a numeric character reference: boundary code points (NUL, C1 range, surrogates, last scalar value, beyond Unicode,
+    the longest accepted digit strings) or random digits, decimal or hexadecimal, with or without the semicolon"""
+    if t.chance(170):
+        v = t.choice(_REF_VALUES)
+        body = ('%d' % v) if t.chance(128) else (t.choice('xX') + t.choice(['%x', '%X', '%06x']) % v)
+    elif t.chance(128):
+        body = ''.join(t.choice('0123456789') for _ in range(1 + t.below(9)))
+    else:
+        body = t.choice('xX') + ''.join(t.choice('0123456789abcdefABCDEF') for _ in range(1 + t.below(8)))
+    return '&#' + body + (';' if not t.chance(30) else '')
+
+
+INLINE += ['&#1114111;', '&#1114112;', '&#x10FFFF;', '&#x110000;', '&#xD800;', '&#9999999;', '&#xFFFFFF;', '&#128;', '&#x80;', '\x00', '\ufeff']
+
+
 def line_doc(t, max_lines=14):
     lines = []
     for _ in range(1 + t.below(max_lines)):
@@ -51,7 +73,7 @@ def line_doc(t, max_lines=14):
         if t.chance(90):
             s += t.choice(BLOCK_OPENERS)
         for _ in range(t.below(7)):
-            s += t.choice(INLINE)
+            s += t.choice(INLINE) if not t.chance(8) else numeric_ref(t)
         if t.chance(20):
             s += t.choice(['  ', '\\', '   ', ' #', ' ##  '])
         lines.append(s)
